@@ -19,21 +19,188 @@ import (
 //go:embed baseline_funcs.txt
 var baselineFuncsTxt string
 
-func baselineFuncs() map[string]bool {
-	m := map[string]bool{}
-	for _, l := range strings.Split(baselineFuncsTxt, "\n") {
-		if l = strings.TrimSpace(l); l != "" && !strings.HasPrefix(l, "#") {
-			m[l] = true
+// baseline_fields.txt: the struct types of the pinned tree, one per line: Type<TAB>name:type|name:type|...
+//
+//go:embed baseline_fields.txt
+var baselineFieldsTxt string
+
+// fieldAliases maps a struct field that carries a new name back to its name on the pinned tree. A renamed field is
+// recognised when its struct still has the same number of fields with the same types in the same order.
+var fieldAliases = map[*types.Var]string{}
+
+// fvName: the name the rules know field v under.
+func fvName(v *types.Var) string {
+	if n, ok := fieldAliases[v]; ok {
+		return n
+	}
+	return v.Name()
+}
+
+func structText(st *types.Struct, pkg *types.Package) string {
+	var parts []string
+	for i := 0; i < st.NumFields(); i++ {
+		parts = append(parts, st.Field(i).Name()+":"+types.TypeString(st.Field(i).Type(), types.RelativeTo(pkg)))
+	}
+	return strings.Join(parts, "|")
+}
+
+// fieldRenameAliases fills fieldAliases for the package and returns a description of what was recognised.
+func fieldRenameAliases(pkg *types.Package) []string {
+	fieldAliases = map[*types.Var]string{}
+	var out []string
+	for _, l := range strings.Split(baselineFieldsTxt, "\n") {
+		if l = strings.TrimSpace(l); l == "" || strings.HasPrefix(l, "#") {
+			continue
+		}
+		parts := strings.SplitN(l, "\t", 2)
+		if len(parts) != 2 {
+			continue
+		}
+		tn, ok := pkg.Scope().Lookup(parts[0]).(*types.TypeName)
+		if !ok {
+			continue
+		}
+		st, ok := tn.Type().Underlying().(*types.Struct)
+		if !ok {
+			continue
+		}
+		old := strings.Split(parts[1], "|")
+		if len(old) != st.NumFields() {
+			continue
+		}
+		var pend [][2]int
+		okAll := true
+		names := map[string]bool{}
+		for i := 0; i < st.NumFields(); i++ {
+			names[st.Field(i).Name()] = true
+		}
+		for i, o := range old {
+			nt := strings.SplitN(o, ":", 2)
+			if len(nt) != 2 || nt[1] != types.TypeString(st.Field(i).Type(), types.RelativeTo(pkg)) {
+				okAll = false
+				break
+			}
+			if nt[0] != st.Field(i).Name() {
+				if names[nt[0]] {
+					okAll = false // fields were reordered rather than renamed
+					break
+				}
+				pend = append(pend, [2]int{i, 0})
+			}
+		}
+		if !okAll {
+			continue
+		}
+		for _, pi := range pend {
+			i := pi[0]
+			oldName := strings.SplitN(old[i], ":", 2)[0]
+			fieldAliases[st.Field(i)] = oldName
+			out = append(out, parts[0]+"."+oldName+" -> "+parts[0]+"."+st.Field(i).Name())
 		}
 	}
+	sort.Strings(out)
+	return out
+}
+
+func baselineFuncs() map[string]bool {
+	m := map[string]bool{}
+	for n := range baselineSigs() {
+		m[n] = true
+	}
 	return m
+}
+
+// baselineSigs: name -> signature text (as printed by -listfuncs).
+func baselineSigs() map[string]string {
+	m := map[string]string{}
+	for _, l := range strings.Split(baselineFuncsTxt, "\n") {
+		if l = strings.TrimSpace(l); l == "" || strings.HasPrefix(l, "#") {
+			continue
+		}
+		parts := strings.SplitN(l, "\t", 2)
+		sig := ""
+		if len(parts) == 2 {
+			sig = parts[1]
+		}
+		m[parts[0]] = sig
+	}
+	return m
+}
+
+func sigText(fn *ssa.Function, pkg *types.Package) string {
+	return types.TypeString(fn.Signature, types.RelativeTo(pkg))
+}
+
+// receiverPrefix: "(*T)." / "(T)." of a method's relative name, "" for a function.
+func receiverPrefix(name string) string {
+	if strings.HasPrefix(name, "(") {
+		if i := strings.Index(name, ")."); i > 0 {
+			return name[:i+2]
+		}
+	}
+	return ""
+}
+
+// renameAliases recognises a renamed function: a baseline name that no longer exists, and exactly one function that
+// is not in the baseline with the same receiver and the same signature. The rules then treat the new function as the
+// old one (its obligations are those of the old name, so a different function that merely took the place is reported
+// like a changed body would be). Without the alias every rule anchored on the old name would be undecided.
+func (w *World) renameAliases(all map[*ssa.Function]bool) {
+	sigs := baselineSigs()
+	cur := map[string]*ssa.Function{}
+	for fn := range all {
+		if fn.Pkg == w.Main && fn.Parent() == nil && fn.Blocks != nil && fn.Synthetic == "" {
+			cur[fn.RelString(w.Main.Pkg)] = fn
+		}
+	}
+	var missing, fresh []string
+	for n := range sigs {
+		if _, ok := cur[n]; !ok {
+			missing = append(missing, n)
+		}
+	}
+	for n := range cur {
+		if _, ok := sigs[n]; !ok {
+			fresh = append(fresh, n)
+		}
+	}
+	sort.Strings(missing)
+	sort.Strings(fresh)
+	used := map[string]bool{}
+	w.alias = map[*ssa.Function]string{}
+	for _, m := range missing {
+		if sigs[m] == "" {
+			continue
+		}
+		var cands []string
+		for _, f := range fresh {
+			if used[f] || receiverPrefix(f) != receiverPrefix(m) {
+				continue
+			}
+			if sigText(cur[f], w.Main.Pkg) == sigs[m] {
+				cands = append(cands, f)
+			}
+		}
+		// also unique among the missing ones with that receiver and signature
+		same := 0
+		for _, m2 := range missing {
+			if receiverPrefix(m2) == receiverPrefix(m) && sigs[m2] == sigs[m] {
+				same++
+			}
+		}
+		if len(cands) == 1 && same == 1 {
+			used[cands[0]] = true
+			w.alias[cur[cands[0]]] = m
+			w.Renamed = append(w.Renamed, m+" -> "+cands[0])
+		}
+	}
 }
 
 // inlineNewHelpers inlines, to a fixpoint, every named function of the main package that is not in the baseline, is
 // called statically from exactly one site of the package, is used in no other way (no function value, no go/defer,
 // no interface that could dispatch to it) and can be inlined. It returns the names inlined and an error when an
 // inlined caller fails go/ssa's consistency check (the caller must then reload without inlining).
-func inlineNewHelpers(prog *ssa.Program, main *ssa.Package) ([]string, error) {
+func inlineNewHelpers(prog *ssa.Program, main *ssa.Package, renamed map[*ssa.Function]string) ([]string, error) {
 	base := baselineFuncs()
 	if len(base) < 200 {
 		return nil, fmt.Errorf("baseline function inventory has only %d entries", len(base))
@@ -113,6 +280,9 @@ func inlineNewHelpers(prog *ssa.Program, main *ssa.Package) ([]string, error) {
 			name := f.RelString(main.Pkg)
 			if base[name] || len(u.calls) != 1 || u.other != 0 {
 				continue
+			}
+			if _, isRenamed := renamed[f]; isRenamed {
+				continue // a function of the pinned tree under a new name, not a new helper
 			}
 			if name == "main" || name == "init" || strings.HasPrefix(name, "init#") {
 				continue
